@@ -716,6 +716,14 @@ pub fn sweep_c09(tier: &str, seed: u64) -> (usize, Vec<String>) {
             let w = rand_syms::<Dna>(&mut Rng::new(rep as u64 + 7), m, false);
             let sc: f32 = (0..m).map(|j| sm1.matrix()[j][w[j].as_index()]).sum();
             if sc < lo - 1e-3 || sc > hi + 1e-3 { f.push(fail("pwm_min_max_score", format!("window score {} outside [{}, {}]", sc, lo, hi), case.clone())); }
+            // invalid backgrounds are rejected - also a negative entry AFTER enough positive mass (the running sum stays inside [0,1], the
+            // total is exactly one), an entry above one compensated later, and NaN; entries are multiples of 1/16 so every sum is exact
+            for v in [[0.5f32, -0.25, 0.5, 0.25, 0.0], [0.75, 0.5, -0.25, 0.0, 0.0], [0.25, 0.25, 0.25, 0.5, -0.25], [1.25, -0.25, 0.0, 0.0, 0.0], [0.5, 0.5, 0.0, -0.0625, 0.0625], [0.5, f32::NAN, 0.25, 0.25, 0.0]] {
+                if Background::<Dna>::new(v).is_ok() { f.push(fail("abc_background_new", format!("background {:?} with an entry outside [0,1] accepted", v), case.clone())); }
+            }
+            for v in [[0.5f32, 0.25, 0.125, 0.125, 0.0], [0.0, 0.0, 0.0, 1.0, 0.0], [0.0625, 0.0625, 0.0625, 0.0625, 0.75]] {
+                match Background::<Dna>::new(v) { Ok(b) => if b.frequencies() != &v[..] { f.push(fail("abc_background_new", format!("background {:?} stored as {:?}", v, b.frequencies()), case.clone())); }, Err(_) => f.push(fail("abc_background_new", format!("valid background {:?} rejected", v), case.clone())) }
+            }
             // invalid backgrounds are rejected
             if Background::<Dna>::new([0.3, 0.3, 0.3, 0.3, 0.0]).is_ok() || Background::<Dna>::new([1.5, -0.5, 0.0, 0.0, 0.0]).is_ok() || Background::<Dna>::new([0.25, 0.25, 0.25, 0.25, 0.0]).is_err() { f.push(fail("abc_background_new", "background validation wrong".into(), case.clone())); }
             // ---- C10 on the same matrices
@@ -853,13 +861,17 @@ pub fn sweep_c16(tier: &str, seed: u64) -> (usize, Vec<String>) {
     use rand::SeedableRng;
     let mut rng = Rng::new(seed ^ 0xc16);
     let mut fails = Vec::new(); let mut n = 0;
-    let runs = if tier == "thorough" { 40 } else { 8 };
+    let base_runs = if tier == "thorough" { 40 } else { 8 };
+    // ... plus many short runs on sequences barely longer than the motif (L - w + 1 = 2 or 3 possible starts): every start value,
+    // in particular the largest one, is drawn often - for the initial alignment too
+    let runs = base_runs + if tier == "thorough" { 400 } else { 80 };
     for run in 0..runs {
+        let tiny = run >= base_runs;
         let width = 2 + rng.below(6);
         // run 4: a single sequence (the alignment without the held-out sequence is empty); runs 5 / 7: zoops with one / no seed
         let nseq = if run == 4 { 1 } else { 2 + rng.below(8) };
         let nseeds = if run == 5 { 1 } else if run == 7 { 0 } else { 2 };
-        let lins: Vec<Vec<Nucleotide>> = (0..nseq).map(|_| { let l = width + 1 + rng.below(60); rand_syms::<Dna>(&mut rng, l, run % 3 == 0) }).collect();
+        let lins: Vec<Vec<Nucleotide>> = (0..nseq).map(|_| { let l = width + 1 + if tiny { rng.below(2) } else { rng.below(60) }; rand_syms::<Dna>(&mut rng, l, run % 3 == 0) }).collect();
         let striped: Vec<StripedSequence<Dna, U32>> = lins.iter().map(|s| {
             let mut st: StripedSequence<Dna, U32> = if run % 4 == 3 {
                 // padding cells that are not wildcards (as StripedSequence::sample produces)
@@ -869,7 +881,7 @@ pub fn sweep_c16(tier: &str, seed: u64) -> (usize, Vec<String>) {
             } else { Pipeline::<Dna, _>::generic().stripe(&s[..]) };
             st.configure_wrap(width); st }).collect();
         let zoops = run % 2 == 1;
-        let steps = if tier == "thorough" { 300 } else { 120 };
+        let steps = if tiny { 6 } else if tier == "thorough" { 300 } else { 120 };
         let case = format!("run={} width={} nseq={} zoops={} seeds={} lens={:?}", run, width, nseq, zoops, nseeds, lins.iter().map(|s| s.len()).collect::<Vec<_>>());
         let r = catch_unwind(AssertUnwindSafe(|| -> Vec<String> {
             let mut f = Vec::new();
